@@ -210,6 +210,10 @@ class Prop:
             'OpenSent when the session drops, ending afterwards in OpenSent / OpenConfirm, ending before the drop, losing the collision '
             'against the Established session, reaching Established after the drop with the same GR / without GR / with a GR subset / '
             'during the LLGR period, forced down together, admitted before admin-down; plus a random mode with such events; '
+            'enumerated multi-cycle histories: two and three drop cycles of one peer x {GR only, GR then LLGR, LLGR only} x how each '
+            'earlier cycle ended (reconnect and End-of-RIB before the restart timer, drop with one End-of-RIB outstanding, restart timer '
+            'expiry, every LLGR timer expiring, one LLGR timer expiring then reconnect during LLGR, forced down) x same / other family '
+            'set later, the same route re-announced per cycle; the same on real 1 s / 2 s timers; '
             'a case is non-trivial when a route is retained stale at some step; '
             'distinct = distinct observation trajectories')
     exhaustive = {'quick': True, 'thorough': True}
@@ -234,8 +238,12 @@ class Prop:
                     'the negotiated GR/LLGR values that are observed come from a second, throw-away PeerSession::new_for_test() driven '
                     'through apply_outputs with the same capabilities; a local Hard Reset cannot be produced on a socket and is covered only '
                     'by the function-level gr_on_disconnect cases',
-                    'timers are fired through their oneshot sender (the RunNow path); a timer counts as armed while its sender is '
-                    'present and not closed; wall-clock expiry of the restart / LLGR timers is not exercised (the hold timer is: really waited for)']
+                    'timers are fired through their oneshot sender (the RunNow path) and the slot is then left as a wall-clock expiry '
+                    'leaves it (entry still present, its task gone: the harness puts a sender whose receiver is dropped in its place, since '
+                    'sending consumes the original); a timer counts as armed only while its sender is present and not closed (its task is '
+                    'alive), entries of llgr_family_timers whose task is gone are observed separately and compared with the model\'s t_dead; '
+                    'in the real_time class the negotiated restart time (1 s) and LLGR stale times (1 s / 2 s) really run out on the real '
+                    'timer tasks and nothing is put into any slot by the harness (the hold timer is really waited for as well)']
     assumptions = ['one peer, one shard; the restarting-speaker role (selection_deferral) is inactive',
                    'at most one Established session at a time (property C07); at most one further connection of the same neighbour, '
                    'which is before Established; no new connection of the first role is opened while the second one is pending '
